@@ -1,5 +1,6 @@
 """C01 — Datatype validation is sound, canonical and total."""
 import json
+import math
 import os
 
 from check import Result
@@ -14,18 +15,30 @@ META = {
                   'a number, no fraction truncated, canonical base64, equal lengths - and the accepted value denotes v: numerically '
                   'equal or clamped from inside the documented tolerance, element-wise, key-wise, members not offered taken from '
                   'previous and validated), accept_total / validate_total / import_total / call_total (only bad-value errors), '
-                  'validate_idem + validate_canon = revalidate_unchanged (hypothesis GridExact), call_idem (hypothesis GridAll), '
-                  'inSetB_sound / inSetB_complete.  The models are tied to frappy/datatypes.py by a correspondence run on the real '
-                  'classes; the Lean monitors are `decide` of the specification Props themselves.',
+                  'validate_idem + validate_canon = revalidate_unchanged (hypothesis GridExact), revalidate_unchanged_partial and '
+                  'call_idem_of_snapIdem (validating / converting an already validated / converted value returns it unchanged, from the '
+                  'single carrier hypothesis SnapIdem - a finite round(x/scale)*scale snaps to itself - proved for Rat), '
+                  'string_length_in_chars / string_accepted_iff (string limits count code points, not encoded bytes), change_sound / '
+                  'change_total / change_eq_accept / change_ok_partial (what a `change` request stores: import, validate against the '
+                  'value held, validate once more in the write wrapper), command_argument_ok (what a `do` request hands to the command '
+                  'function), inSetB_sound / inSetB_complete / judgeChange_sound.  The '
+                  'models are tied to frappy/datatypes.py by a correspondence run on the real classes and, for the glue '
+                  '(dispatcher._setParameterValue + write wrapper, Command.do), by `change` and `do` requests to a real SecNode; the Lean monitors are '
+                  '`decide` of the specification Props themselves.',
     'level_note': 'Trusted: Lean kernel + axioms propext/Classical.choice/Quot.sound; the 27 laws of LawfulFloatOps for binary64 (all '
-                  'proved for the exact carrier Rat; re-tested on the doubles of every run - a test).  GridExact / GridAll (hypotheses '
-                  'of idempotence) hold over Rat; for binary64 they can fail where scale is below the float spacing (grid indices '
-                  'beyond 2^53) - the generator probes that region.  lazy_number_validation stays False.  Lone-surrogate strings and '
+                  'proved for the exact carrier Rat; re-tested on the doubles of every run - a test).  SnapIdem (the one hypothesis '
+                  'of revalidate_unchanged_partial, call_idem_of_snapIdem, change_eq_accept) is proved over Rat; for binary64 it is '
+                  'neither proved nor among the laws - it is re-tested in every run (pointed at grid indices 2^49..2^200) and by the '
+                  'idem clause on every accepted value; GridExact / GridAll are the older per-tree forms.  validate_idem_statement '
+                  '(every value of the declared set is a fixed point) is false for binary64 for scaled types whose limit has an '
+                  'overflowing grid value (they refuse every value).  lazy_number_validation stays False.  Lone-surrogate strings and '
                   'previous values of a wrong kind are judged for totality only.  Previous values are values __call__ accepts '
                   '(validate-accepted ones and ones pushed outside the limits).',
     'trusted': [
         'binary64 satisfies the 27 laws of LawfulFloatOps (FrappyModel/Base/Num.lean): order laws, monotonicity of x/scale, k*scale, '
         'round(), x + 0.0, tolerance band; proved for the Rat carrier, re-tested on the doubles of each run',
+        'SnapIdem for binary64 (hypothesis of revalidate_unchanged_partial / call_idem_of_snapIdem / change_eq_accept): '
+        'round(y/scale)*scale = y for every finite y = round(x/scale)*scale; proved for Rat, re-tested on every run',
         'GridExact (hypothesis of validate_idem): round((k*scale)/scale) = k and finiteness on the declared grid range',
         'FrappyDrive/FloatInst.lean: Float instance of FloatOps (exact ofInt/round/trunc computed from bit patterns)',
         'Base64.decode? = canonical base64 = what b64decode(validate=True) followed by the re-encoding comparison accepts (compared on every blob case)',
@@ -35,8 +48,11 @@ META = {
         'base64.b64decode',
         'frappy.lib.enum.Enum (dict keyed by names and values; EnumMember.__eq__/__hash__)',
         'frappy.properties.HasProperties.checkProperties (DType.WF is what it enforces)',
+        'Parameter / Module construction, Dispatcher.handle_request, announceUpdate, export_value of the reply (the `change` stream '
+        'observes the value stored and the error class only; the model changeValue covers import + validate + validate)',
     ],
     'assumptions': ['generalConfig.lazy_number_validation is False (default)',
+                    'change requests: a parameter without write_ method, check_ function or limit parameters; do requests: an argument type that is not a struct at the root',
                     'previous is None or a value __call__ returned (it may lie outside the limits)',
                     'dict keys of offered values are strings (struct member names)'],
 }
@@ -169,15 +185,17 @@ def make_cases(rng, tree, per_tree, big):
     # strings / blobs of length exactly at and next to the limits, single special characters
     nl = 0
     for mode, base in valids:
-        if base is None or nl >= max(4, nbound):
+        if base is None or nl >= max(16, 2 * nbound):
             continue
         leaves = list(gen.leaf_paths(tree, base, ('string', 'blob')))
         rng.shuffle(leaves)
         for path, lt in leaves[:2]:
-            vs = gen.length_variants(rng, lt, mode == 'wire')
-            for x in rng.sample(vs, min(len(vs), max(3, nbound // 2))):
-                cases.append((mode, 'length', gen.subst(base, path, x), gen.gen_previous(rng, tree)))
-                nl += 1
+            # drawn from every group: ASCII lengths at the limits, the same numbers of code points in characters whose
+            # length differs in other units (bytes, UTF-16 units, normalised), single special characters
+            for vs in gen.length_variants(rng, lt, mode == 'wire', grouped=True):
+                for x in rng.sample(vs, min(len(vs), max(3, nbound // 2, len(vs) // 5))):
+                    cases.append((mode, 'length', gen.subst(base, path, x), gen.gen_previous(rng, tree)))
+                    nl += 1
     # shapes
     ns = 0
     for mode, base in valids[:2]:
@@ -239,6 +257,17 @@ def law_test(ctx, res, cases):
         z = rng.choice(fl) if r < 0.5 else dtcodec.f2bits(rng.choice(gen.SCALES + [1e-5, 5e-324, 1e300]))
         if rng.random() < 0.3:
             y = x if rng.random() < 0.3 else dtcodec.f2bits(__import__('math').nextafter(dtcodec.bits2f(x), rng.choice([-gen.INF, gen.INF])))
+        if rng.random() < 0.2:
+            # pointed at the hypothesis SnapIdem: x about k * scale with k around and beyond 2^53 (where the grid is finer than
+            # the float spacing), on and just off the grid
+            sc = rng.choice(gen.SCALES + [1e-5, 1e-7, 0.3, 1 / 3, 3.0, 123.456]) if rng.random() < 0.6 else \
+                math.ldexp(rng.random() + 0.5, rng.randint(-40, 40))
+            k = rng.randrange(2 ** 49, 2 ** rng.choice([52, 53, 54, 55, 60, 70, 200])) * rng.choice([1, -1])
+            try:
+                xv = float(k * sc) * (1 + rng.choice([0, 0, 1, -1, 3]) * 2.0 ** -52)
+            except OverflowError:
+                xv = 1.0
+            x, z = dtcodec.f2bits(xv), dtcodec.f2bits(sc)
         tuples.append([x, y, z, rng.choice(it), rng.choice(it)])
     ans = ctx.driver.batch([{'p': 'C01', 'k': 'laws', 'tuples': tuples[i:i + 2000]} for i in range(0, len(tuples), 2000)])
     fails = {}
@@ -253,11 +282,12 @@ def law_test(ctx, res, cases):
     res.count('float-law re-test (a test): tuples', len(tuples))
     res.count('float-law re-test (a test): distinct doubles', len(fl))
     res.count('float-law re-test (a test): laws violated', len(fails))
-    res.notes.append(f'float-law re-test (a test, not a proof): the laws of LawfulFloatOps evaluated with the Float instance on '
+    res.notes.append(f'float-law re-test (a test, not a proof): the laws of LawfulFloatOps and the hypothesis SnapIdem (snapping a '
+                     f'snapped value to the grid returns it; x any double of the run, scale z) evaluated with the Float instance on '
                      f'{len(tuples)} tuples over the {len(fl)} distinct doubles and {len(it)} integers of this run: '
                      f'{len(fails)} laws violated')
     for name, t in fails.items():
-        res.disagreements.append({'case': {'law': name, 'tuple': t}, 'model': 'law assumed for binary64',
+        res.disagreements.append({'case': {'law': name, 'tuple': t}, 'model': 'law / hypothesis assumed for binary64',
                                   'impl': 'fails on this tuple (bit patterns x, y, z; integers i, j)'})
 
 
@@ -270,6 +300,181 @@ def load_corpus(ctx):
                 c = json.load(open(os.path.join(cdir, fn)))
                 cases.append(c['case'])
     return cases
+
+
+# ---------------------------------------------------------------------------------------------
+# `change` requests through a real SecNode + Dispatcher (the glue around import_value / validate)
+# ---------------------------------------------------------------------------------------------
+class ChangeNode:
+    """a real node with one module whose only own parameter `p` has the datatype under test"""
+
+    def __init__(self, dt):
+        from frappy.modules import Module
+        from frappy.params import Command, Parameter
+        from vlib.node import Node
+
+        from frappy.datatypes import StructOf
+
+        class M0(Module):
+            p = Parameter('parameter under test', datatype=dt, readonly=False)
+            got = None
+        if isinstance(dt, StructOf):
+            # a struct argument is bound to the signature of the function (names, and `optional` REWRITTEN from the
+            # defaults): no command for a struct at the root; structs below the root are covered
+            M = M0
+        else:
+            class M(M0):
+                @Command(argument=dt.copy())
+                def c(self, *args, **kwds):
+                    """command under test: records what it is called with"""
+                    self.got = (args, kwds)
+        self.node = Node({'m': {'cls': M, 'description': 'C01'}})
+        self.module = self.node.modules['m']
+        self.conn = self.node.connect()
+        # the datatype the parameter really has: Parameter copies it (a scaled copy has its limits rounded to the grid)
+        self.dt = self.module.parameters['p'].datatype
+        self.tree = dtcodec.dt_to_tree(self.dt)
+        self.argtype = self.module.commands['c'].argument if 'c' in self.module.commands else None
+        self.argtree = dtcodec.dt_to_tree(self.argtype) if self.argtype is not None else None
+
+    def hold(self, value):
+        """a driver update: the parameter now holds dt(value) (or keeps its value when __call__ refuses)"""
+        self.module.announceUpdate('p', value)
+
+    @property
+    def held(self):
+        return self.module.parameters['p'].value
+
+    def change(self, cand):
+        """('ok', stored value) | ('bad', None) | ('other', python class) for one `change m:_p <cand>`"""
+        reply = self.node.request(self.conn, 'change', 'm:_p', cand)
+        del self.conn.msgs[:]
+        if reply[0] == 'changed':
+            return 'ok', self.held
+        if reply[2][0] in ('RangeError', 'WrongType'):
+            return 'bad', None
+        return 'other', reply[2][1]
+
+
+    def do(self, cand):
+        """('ok', the argument the command function received) | ('bad', None) | ('other', python class) for `do m:_c <cand>`"""
+        from frappy.datatypes import StructOf, TupleOf
+        self.module.got = None
+        reply = self.node.request(self.conn, 'do', 'm:_c', cand)
+        del self.conn.msgs[:]
+        if reply[0] == 'done':
+            if self.module.got is None:
+                return 'other', 'function-not-called'
+            args, kwds = self.module.got
+            if isinstance(self.argtype, TupleOf):       # called with the elements as positional arguments
+                return 'ok', tuple(args)
+            if isinstance(self.argtype, StructOf):      # called with the members as keyword arguments
+                return 'ok', dict(kwds)
+            return ('ok', args[0]) if len(args) == 1 and not kwds else ('other', 'wrong-call-shape')
+        if reply[2][0] in ('RangeError', 'WrongType'):
+            return 'bad', None
+        return 'other', reply[2][1]
+
+
+def eval_do(case, cn=None):
+    """one `do` request for a protocol case with mode 'do' (the candidate as the argument of a command)"""
+    if cn is None:
+        cn = ChangeNode(dtcodec.tree_to_dt(case['tree']))
+    cand = json.loads(json.dumps(dtcodec.json_to_py(case['cand'])))
+    hint = _outcome(lambda: cn.argtype.import_value(cand))
+    out = _enc(cn.do(cand))
+    req = {'p': 'C01', 'k': 'change', 'dt': cn.argtree, 'cand': case['cand'], 'held': None,
+           'hint': dtcodec.py_to_json(hint[1]) if hint[0] == 'ok' and dtcodec.encodable(hint[1]) else None, 'out': out}
+    return req, out
+
+
+def eval_change(case, cn=None):
+    """one `change` request for a protocol case with mode 'node' (prev = the value held); returns (request, outcome)"""
+    dt = dtcodec.tree_to_dt(case['tree'])
+    if cn is None:
+        cn = ChangeNode(dt)
+    if case['prev'] is not None:
+        cn.hold(dtcodec.json_to_py(case['prev']))
+    held = cn.held
+    cand = json.loads(json.dumps(dtcodec.json_to_py(case['cand'])))
+    hint = _outcome(lambda: cn.dt.import_value(cand))
+    out = _enc(cn.change(cand))
+    if not dtcodec.encodable(held):
+        return None, out
+    req = {'p': 'C01', 'k': 'change', 'dt': cn.tree, 'cand': case['cand'], 'held': dtcodec.py_to_json(held),
+           'hint': dtcodec.py_to_json(hint[1]) if hint[0] == 'ok' and dtcodec.encodable(hint[1]) else None, 'out': out}
+    return req, out
+
+
+def node_stream(ctx, res, cases, ntrees):
+    """the wire cases of `ntrees` trees sent to a real node as `change` requests (the value stored / the error class
+    against the model `changeValue`) and as `do` requests (the argument the command function received against
+    `acceptWire dt j none`), both judged by the Lean monitor `judgeChange`"""
+    by_tree = {}
+    for c, stream in cases:
+        if c['mode'] == 'wire' and not c.get('via_get_datatype'):
+            by_tree.setdefault(json.dumps(c['tree'], sort_keys=True), []).append(c)
+    keys = sorted(by_tree)
+    ctx.rng.shuffle(keys)
+    reqs, meta, histories = [], [], []
+    for key in keys[:ntrees]:
+        group = by_tree[key]
+        try:
+            cn = ChangeNode(dtcodec.tree_to_dt(group[0]['tree']))
+        except Exception as e:      # a datatype no parameter can be built with is not a case
+            res.count('node.refused:' + type(e).__name__)
+            continue
+        res.count('node.tree.root=' + group[0]['tree']['t'])
+        held0, events = cn.held, []
+        for c in group:
+            req, out = eval_change(c, cn)
+            if c['prev'] is not None:
+                events.append({'u': c['prev']})
+            events.append({'c': c['cand']})
+            if req is None:
+                continue
+            nc = {'tree': c['tree'], 'mode': 'node', 'cand': c['cand'], 'prev': req['held']}
+            reqs.append(req)
+            meta.append((nc, out))
+            if c['cand'] is not None and cn.argtype is not None:    # `do` without data is "no argument", not a null argument
+                req, out = eval_do(c, cn)
+                reqs.append(req)
+                meta.append(({'tree': c['tree'], 'mode': 'do', 'cand': c['cand'], 'prev': None}, out))
+        # the whole history of this parameter (driver updates and change requests, accepted or refused) against `holdRun`
+        if dtcodec.encodable(held0) and dtcodec.encodable(cn.held):
+            histories.append(({'tree': cn.tree, 'held0': dtcodec.py_to_json(held0), 'events': events},
+                              dtcodec.py_to_json(cn.held)))
+    hreqs = [{'p': 'C01', 'k': 'history', 'dt': h['tree'], 'held0': h['held0'], 'events': h['events']} for h, _ in histories]
+    for (h, final), ans in zip(histories, ctx.driver.batch(hreqs)):
+        if 'driver_error' in ans:
+            raise RuntimeError(f'driver error {ans} on a history of {len(h["events"])} events')
+        res.evaluations += 1
+        res.count('stream=node(history of one parameter)')
+        res.count('node.history.events', len(h['events']))
+        if ans['wf'] and ctx.model_ok and dtcodec.canon(ans['held']) != dtcodec.canon(final):
+            res.disagreements.append({'case': dict(h, mode='history'), 'model': {'held': ans['held']}, 'impl': {'held': final}})
+    for (nc, out), ans in zip(meta, ctx.driver.batch(reqs)):
+        if 'driver_error' in ans:
+            raise RuntimeError(f'driver error {ans} on {json.dumps(nc)[:400]}')
+        res.evaluations += 1
+        res.traces += 1
+        res.count('stream=node(change request)' if nc['mode'] == 'node' else 'stream=node(do request)')
+        res.count(('node.change=' if nc['mode'] == 'node' else 'node.do=') + out_class(out))
+        if out_class(out) == 'ok':
+            res.nontriv(nc)
+        if not ans['wf']:
+            continue
+        if ctx.model_ok and canon_out(ans['model']) != canon_out(out):
+            res.disagreements.append({'case': nc, 'model': ans['model'], 'impl': out})
+        for clause in ans['judge']:
+            res.violations.append({'sig': 'C01:' + clause + ':' + nc['tree']['t'] +
+                                          (':' + out['other'] if clause.startswith('total') else ''),
+                                   'what': f'{clause}: ' + (f'change request on a parameter of type {dtcodec.tree_to_dt(nc["tree"])!r} holding '
+                                                            f'{dtcodec.json_to_py(nc["prev"])!r}' if nc['mode'] == 'node' else
+                                                            f'do request on a command with argument type {dtcodec.tree_to_dt(nc["tree"])!r}') +
+                                           f', data {dtcodec.json_to_py(nc["cand"])!r}: '
+                                           f'{json.dumps(out) if not (isinstance(out, dict) and "ok" in out) else repr(dtcodec.json_to_py(out["ok"]))}',
+                                   'case': nc, 'detail': {'clause': clause}})
 
 
 # ---------------------------------------------------------------------------------------------
@@ -378,8 +583,11 @@ def run(ctx):
                 'get_datatype): import_value + validate(previous) for JSON candidates, validate(previous) for Python candidates, '
                 '__call__ for both, re-validation of every accepted value.  Streams: valid (from the value set), subst (every kind at '
                 'every position), boundary (limits, tolerance band, NaN/inf, huge ints), shape (lengths, arity, members, None). '
+                'length (code-point counts at the limits in ASCII and in characters whose length differs in bytes / UTF-16 units / '
+                'after normalisation), relative (built from the value held), node (the wire cases of a share of the trees as '
+                '`change` requests to a real SecNode).  '
                 'Non-trivial = accepted by validate, or a container candidate of the right container kind that is rejected (the '
-                'rejection comes from a length or from below the root)')
+                'rejection comes from a length or from below the root); for a change request: accepted')
     rng = ctx.rng
     big = ctx.tier == 'thorough' or ctx.escalated
     maxdepth = 5 if big else 3
@@ -390,7 +598,8 @@ def run(ctx):
     cases = []
     for c in load_corpus(ctx):
         cases.append((c, 'corpus'))
-    trees = gen.all_kind_trees(rng, maxdepth)
+    trees = gen.all_kind_trees(rng, maxdepth) + gen.length_limited_trees(rng, max(16, ntrees // 12)) + \
+        gen.extreme_scaled_trees(rng, max(6, ntrees // 30))
     while len(trees) < ntrees:
         d = rng.choice([1, 2, 2, 3, 3, 3] + ([4, 5] if big else []))
         trees.append(gen.gen_tree(rng, min(d, maxdepth)))
@@ -522,6 +731,9 @@ def run(ctx):
                                        'what': f'{clause}: ' + describe(small, simpl),
                                        'case': small, 'detail': {'clause': clause, 'original': c if small is not c else None}})
 
+    # ---------- the same wire cases as `change` requests through a real node (glue: dispatcher + write wrapper) ----------
+    node_stream(ctx, res, cases, ctx.budget(40, 400))
+
     # ---------- re-test of the float laws on the doubles drawn (a test of the trusted base, not a proof) ----------
     law_test(ctx, res, cases)
 
@@ -570,6 +782,18 @@ def run(ctx):
 
 
 def replay(ctx, rp):
+    if 'case' not in rp:
+        # a `no-failing-input-found` file: the disagreeing cases (and / or the proof status) of that run
+        rc = 0
+        for n in rp.get('proof_status') or []:
+            print('proof    :', str(n)[-600:])
+        for d in rp.get('correspondence_disagreements') or []:
+            if 'law' in d['case']:
+                print('law      :', d['case'], '(re-tested in every run)')
+                continue
+            print('--- disagreeing case')
+            rc |= replay(ctx, {'case': d['case'], 'kind': 'no-failing-input-found'})
+        return 1 if rc or rp.get('theorems_not_checked') else 0
     case = rp['case']
     if case['mode'] == 'oddprev':
         dt = dtcodec.tree_to_dt(case['tree'])
@@ -587,6 +811,38 @@ def replay(ctx, rp):
         print('candidate:', repr(cand))
         print('impl     :', outs)
         return 1 if any(k == 'other' for k, _ in outs) else 0
+    if case['mode'] == 'history':
+        cn = ChangeNode(dtcodec.tree_to_dt(case['tree']))
+        cn.hold(dtcodec.json_to_py(case['held0']))
+        held0 = dtcodec.py_to_json(cn.held)
+        for ev in case['events']:
+            if 'u' in ev:
+                cn.hold(dtcodec.json_to_py(ev['u']))
+            else:
+                cn.change(json.loads(json.dumps(dtcodec.json_to_py(ev['c']))))
+        ans = ctx.driver.batch([{'p': 'C01', 'k': 'history', 'dt': cn.tree, 'held0': held0, 'events': case['events']}])[0]
+        final = dtcodec.py_to_json(cn.held)
+        print('datatype :', repr(cn.dt))
+        print('events   :', len(case['events']))
+        print('impl held:', json.dumps(final))
+        print('model    :', json.dumps(ans.get('held')))
+        agree = dtcodec.canon(ans['held']) == dtcodec.canon(final)
+        print('model == implementation:', agree)
+        return 0 if agree else 1
+    if case['mode'] in ('node', 'do'):
+        req, out = eval_change(case) if case['mode'] == 'node' else eval_do(case)
+        ans = ctx.driver.batch([req])[0]
+        print('datatype :', repr(dtcodec.tree_to_dt(case['tree'])))
+        print('held     :', repr(dtcodec.json_to_py(req['held'])) if req['held'] is not None else '- (do request)')
+        print('data     :', repr(dtcodec.json_to_py(case['cand'])))
+        print('impl     :', json.dumps(out))
+        print('model    :', json.dumps(ans.get('model')))
+        print('judge    :', ans.get('judge'), '' if ans.get('wf') else '(tree not WF)')
+        agree = canon_out(ans['model']) == canon_out(out)
+        print('model == implementation:', agree)
+        if rp.get('kind') == 'no-failing-input-found':
+            return 0 if agree else 1
+        return 1 if ans.get('judge') else 0
     req, impl = eval_case(case)
     ans = ctx.driver.batch([req])[0]
     dt = dtcodec.tree_to_dt(case['tree'])
